@@ -117,6 +117,19 @@ func classify(op string, want, got map[string][]specTask) (string, string) {
 			continue
 		}
 		d := fmt.Sprintf("queue %s holds %v, specification %v", q, brief(g), brief(w))
+		if len(w) == len(g) {
+			onlyAf := true
+			for i := range w {
+				a, b := w[i], g[i]
+				a.Af, b.Af = false, false
+				if !reflect.DeepEqual(a, b) {
+					onlyAf = false
+				}
+			}
+			if onlyAf {
+				return "C04/combined-allow-failure", d
+			}
+		}
 		switch op {
 		case "Pick":
 			return "C07/combine", d // combining changed the queue differently
@@ -302,6 +315,12 @@ func replayCase(n int, c Case, hookbin string) Result {
 			status, err := f.WaitHandled(q, 8*time.Second)
 			if err != nil {
 				return bad(i, "DIV/steer/Finish", err.Error())
+			}
+			if t.Type == "EnableKube" {
+				// the monitors were started by this task: wait until their informers really watch the fake cluster
+				if err := f.WaitWatches(t.Hook); err != nil {
+					return bad(i, "DIV/watch", err.Error())
+				}
 			}
 			if status != wantStatus {
 				sig := "C04/status"
